@@ -5,13 +5,16 @@ package polyjson
 // C15: JSON is a lossless interchange form for annotated sequences.
 //
 // verif:bound C15 structured sequences: every string field of Meta / Locus / Reference / Feature one symbolic printable byte (metadata) or 1..2 bytes, the sequence 5 symbolic letters, Locus flags and region bounds symbolic, feature coordinates from six spans (whole, interior, zero-width inside / at either end, last base); 0..1 (quick) / 0..2 (thorough) references, Other map absent / empty / one entry, 0..1 (quick) / 0..2 (thorough) features each with a location tree of depth <= 2 (quick) / 3 (thorough) with symbolic partial flags, attribute map absent / empty / one entry
+// verif:bound C15 format round trip: one GenBank record (3 feature tables) and one GFF record with symbolic name, words, qualifier / attribute values and sequence: Build(Parse(text)) equals Build(polyjson.Parse(JSON(Parse(text)))) byte for byte
 // verif:assume C15 encoding/json is replaced by a contract model that walks the REAL struct types and tags of /repo's current source (exported fields, json:"name", json:"-", omitempty, duplicate names dropped, case-insensitive decode, nil <-> null); the JSON text layer (syntax, escaping, non-ASCII) is not modelled
-// verif:bound C15 outside the claim: JSON text syntax and escaping, non-ASCII text, temp files (Read/Write), and the sentence 'GenBank or GFF -> JSON -> original format gives the same text' (it needs a deterministic writer, see C03)
+// verif:bound C15 outside the claim: JSON text syntax and escaping, non-ASCII text, temp files (Read/Write), long records
 
 import (
 	"encoding/json"
 
 	"github.com/TimothyStiles/poly"
+	"github.com/TimothyStiles/poly/io/genbank"
+	"github.com/TimothyStiles/poly/io/gff"
 )
 
 func c15Printable() string {
@@ -146,4 +149,37 @@ func Harness_C15_RoundTrip() {
 	vCover("C15 nested location", nf > 0 && len(seq.Features[0].SequenceLocation.SubLocations) > 0)
 	vCover("C15 absent collections", nf == 0 && nr == 0 && m.Other == nil)
 	vCover("C15 a feature with attributes", nf > 0 && len(seq.Features[0].Attributes) > 0)
+}
+
+// Converting parser output to JSON and back gives the same GenBank / GFF text as
+// writing the parsed input directly.
+func Harness_C15_FormatRoundTrip() {
+	name := vBytes(3, "abcdefhijklnpqswxyz")
+	word := vBytes(2, "abcdefghijklmnopqrstuvwxyzABCDEFGHIJKLMNOPQRSTUVWXYZ")
+	val := vBytes(2, "abcdefghijklmnopqrstuvwxyz0123456789")
+	seq := vBytes(12, "acgt")
+	feat := ""
+	switch vChoice(3) {
+	case 1:
+		feat = "     gene            1..3\n                     /gene=\"" + val + "\"\n"
+	case 2:
+		feat = "     CDS             complement(join(1..2,4..5))\n                     /product=\"" + val + "\"\n                     /note=\"x y\"\n     misc_feature    <2..>3\n"
+	}
+	gbk := "LOCUS       " + name + "             12 bp    DNA     circular SYN 12-APR-2021\n" +
+		"DEFINITION  Synthetic " + word + " construct.\nACCESSION   AB0001\nVERSION     AB0001.1\nKEYWORDS    .\nSOURCE      synthetic DNA construct\n  ORGANISM  synthetic DNA construct\n" +
+		"REFERENCE   1  (bases 1 to 12)\n  AUTHORS   Doe,J.\n  TITLE     Direct " + word + "\n  JOURNAL   Unpublished\n  REMARK    noted\nCOMMENT     c " + word + "\n" +
+		"FEATURES             Location/Qualifiers\n" + feat + "ORIGIN\n        1 " + seq[:10] + " " + seq[10:] + "\n//\n"
+	a := genbank.Parse([]byte(gbk))
+	direct := genbank.Build(a)
+	js, err := json.MarshalIndent(a, "", " ")
+	vAssert(err == nil, "serialises")
+	viaJSON := genbank.Build(Parse(js))
+	vAssert(vEqStr(string(direct), string(viaJSON)), "genbank-to-json-and-back-writes-the-same-text")
+
+	gf := "##gff-version 3\n##sequence-region " + name + " 1 12\n" + name + "\tsrc\tgene\t2\t9\t.\t+\t.\tID=" + val + ";Name=" + word + "\n###\n##FASTA\n>" + name + "\n" + seq + "\n"
+	g := gff.Parse([]byte(gf))
+	gdirect := gff.Build(g)
+	gjs, _ := json.MarshalIndent(g, "", " ")
+	gvia := gff.Build(Parse(gjs))
+	vAssert(vEqStr(string(gdirect), string(gvia)), "gff-to-json-and-back-writes-the-same-text")
 }
